@@ -252,6 +252,9 @@ func oracle(c *octx) *eng.Violation {
 	case "C08":
 		return c.inFlight("upper")
 	case "C09":
+		if c.sc.Ctx.Kind == "cancel" {
+			return first(c.postAfterItems(), c.slotsHonest())
+		}
 		return first(c.stopOnError(c.boosted()), c.slotsHonest())
 	}
 	return c.viol("internal", "no oracle for %s", c.prop)
@@ -492,16 +495,19 @@ func (c *octx) slotsHonest() *eng.Violation {
 			return c.viol("slot-count", "batch node %d: post received %d results for %d items", mb.N, len(got), len(mb.Items))
 		}
 		for ii, mi := range mb.Items {
-			n := 0
+			n, execs := 0, 0
 			var lastEv simrt.Event
 			for _, e := range bv.evs {
 				if e.I-1 == ii {
 					n++
 					lastEv = e
+					if e.Kind == "exec_start" {
+						execs++
+					}
 				}
 			}
 			switch {
-			case n == 0:
+			case execs == 0: // (a fallback consulted for an item that was never attempted does not make it processed)
 				if !strings.HasPrefix(got[ii], "ER(") {
 					return c.viol("unexecuted-slot-reported-success", "batch node %d: item %d was never executed, yet post received %q for it (IsError()==false)", mb.N, ii, got[ii])
 				}
